@@ -27,6 +27,8 @@ from ahbicht.content_evaluation.fc_evaluators import FcEvaluator
 from ahbicht.content_evaluation.rc_evaluators import RcEvaluator
 from ahbicht.expressions.hints_provider import HintsProvider
 from ahbicht.expressions.package_expansion import PackageResolver
+from datetime import timedelta
+
 from ahbicht.content_evaluation.evaluationdatatypes import EvaluationContext
 from ahbicht.models.condition_nodes import EvaluatedFormatConstraint
 from ahbicht.models.mapping_results import PackageKeyConditionExpressionMapping
@@ -138,6 +140,27 @@ class AbstractOffset:
 
     def total_seconds(self):
         return vstat_component(self.zone, "offset_seconds")
+
+    def __bool__(self):
+        return not vstat_offset_equals(self, timedelta(0))
+
+    def __lt__(self, other):
+        return vstat_component(self.zone, "offset_seconds") < 0
+
+    def __gt__(self, other):
+        return vstat_component(self.zone, "offset_seconds") > 0
+
+    def __le__(self, other):
+        return vstat_component(self.zone, "offset_seconds") <= 0
+
+    def __ge__(self, other):
+        return vstat_component(self.zone, "offset_seconds") >= 0
+
+    def __abs__(self):
+        return AbstractOffset(self.zone)
+
+    def __neg__(self):
+        return AbstractOffset(self.zone)
 
     def __str__(self):
         return vstat_text("offset")
